@@ -62,6 +62,24 @@ func runC06(args []string) {
 			cand := vg.RecordsRich(t.Def, 12)
 			// the first value (everything present) and those that add the most wire features
 			evs := pickRich(t, encodeValues(ch, t, cand), nv)
+			bigFrom := len(evs)
+			if strings.HasPrefix(t.Label, "extremes/big-containers") && !asan {
+				// one value whose containers hold 20 000 elements: only on prefixes of such an
+				// encoding can a decoder that allocates for the announced count exceed the bound
+				vb := codec.NewVG(t.Ctx, r.Seed)
+				vb.BigN = 20000
+				var best *encVal
+				for _, e := range encodeValues(ch, t, vb.RecordsRich(t.Def, 8)) {
+					e := e
+					if best == nil || len(e.B) > len(best.B) {
+						best = &e
+					}
+				}
+				if best != nil && len(best.B) > 100000 {
+					evs = append(evs, *best)
+					r.Hist("big-container value swept (" + t.Def.Name + ")")
+				}
+			}
 			for vi, ev := range evs {
 				if r.Broken() {
 					return
@@ -79,6 +97,9 @@ func runC06(args []string) {
 					if len(ev.B) > 1500 && !r.Thorough() {
 						// long encodings: every offset near both ends, every 53rd in between (all in thorough)
 						item["step"] = 53
+					}
+					if vi >= bigFrom {
+						item["step"] = len(ev.B)/120 + 1
 					}
 					if dc.err == "ueof" {
 						// deliver the prefix, then io.ErrUnexpectedEOF instead of EOF
